@@ -335,9 +335,10 @@ class PropRecorder:
         self.cls.fit = self.orig
 
 
-def propagation_cases(ctx, b, params):
+def propagation_cases(ctx, b, params, seed=0):
     from sknetwork.clustering import PropagationClustering
-    desc = {'kind': 'estimator', 'est': 'PropagationClustering', 'params': params, 'graph': gdesc(b)}
+    desc = {'kind': 'estimator', 'est': 'PropagationClustering', 'params': params, 'graph': gdesc(b), 'np_seed': seed}
+    np.random.seed(seed)      # node_order='random' shuffles with the global generator
     sig0 = {'entry': 'PropagationClustering', 'sort_clusters': params.get('sort_clusters', True),
             'node_order': params.get('node_order')}
     key0 = ('PropagationClustering', enc_csr(b), tuple(sorted((k, str(v)) for k, v in params.items())))
@@ -614,8 +615,7 @@ def estimator_cases(ctx, name, b, reps=1, kcenters=True):
         fb = square and rng.random() < 0.25
         out += louvain_cases(ctx, 'Leiden', b, louvain_params(rng), fb)
         if rng.random() < 0.85:
-            np.random.seed(rng.randrange(10 ** 6))
-            out += propagation_cases(ctx, b, prop_params(rng))
+            out += propagation_cases(ctx, b, prop_params(rng), rng.randrange(10 ** 6))
     if kcenters:
         fb = square and rng.random() < 0.3
         bip = fb or not square
@@ -681,8 +681,7 @@ def cases_of_desc(ctx, d):
     if d['est'] in ('Louvain', 'Leiden'):
         return louvain_cases(ctx, d['est'], b, d['params'], d.get('force_bipartite', False))
     if d['est'] == 'PropagationClustering':
-        np.random.seed(d.get('np_seed', 0))
-        return propagation_cases(ctx, b, d['params'])
+        return propagation_cases(ctx, b, d['params'], d.get('np_seed', 0))
     if d['est'] == 'KCenters':
         return kcenters_cases(ctx, b, d['params'], d.get('force_bipartite', False), d.get('np_seed', 0))
     raise ToolFailure('unknown replay case %r' % (d,))
